@@ -886,6 +886,39 @@ fn counter_sweep(t: &mut Trace, base: &Path, run: u64) {
     w.done();
 }
 
+/// two stores sharing one cache file know the SAME address with different counters: the one that flushes last merges its
+/// memory with a file entry that is newer / older than its own (seeded/C18-8: the other side's counters dropped when
+/// its entry is the newer one, so that clean-up removes an address the merged counters call reliable)
+fn merge_grid(t: &mut Trace, base: &Path, mut run: u64) -> u64 {
+    let c = Cfg { max_p: 4, max_a: 4, expiry: Duration::from_secs(24 * HOUR) };
+    for fails in 0..=3u64 {
+        for succ in [0u64, 1, 3] {
+            for first in [1u64, 2] {
+                for cleanup in [true, false] {
+                    run += 1;
+                    let mut w = World::new(base, run, 6, 4, c.clone());
+                    w.new_store(t, 1, c.clone(), "mergegrid");
+                    w.new_store(t, 2, c.clone(), "mergegrid");
+                    let second = 3 - first;
+                    // store 1 collects failures, store 2 successes; `first` acts first, so the other one's entry is the newer
+                    for p in [first, second] {
+                        w.store_op(t, &json!({"op": "Add", "p": p, "k": 1, "a": 1, "x": false}), "mergegrid");
+                        let (n, ok) = if p == 1 { (fails, false) } else { (succ, true) };
+                        for _ in 0..n {
+                            w.store_op(t, &json!({"op": "Upd", "p": p, "k": 1, "a": 1, "x": ok}), "mergegrid");
+                        }
+                    }
+                    w.store_op(t, &json!({"op": "Flush", "p": 2, "x": false}), "mergegrid");
+                    w.store_op(t, &json!({"op": "Flush", "p": 1, "x": cleanup}), "mergegrid");
+                    w.store_op(t, &json!({"op": "Flush", "p": 2, "x": cleanup}), "mergegrid");
+                    w.done();
+                }
+            }
+        }
+    }
+    run
+}
+
 /// the public craft function on one presentation of (k, a). `ok`: the presentation is one the statement calls dialable
 /// (it carries ip4, a dialable transport and a peer id): the result has to be THE canonical address of (k, a), not
 /// merely an address of the right shape. Other presentations: whatever it returns has the cache's address shape.
@@ -1253,6 +1286,7 @@ fn main() {
         run += 1; shape_sweep(&mut t, &base, run);
         run += 1; corrupt_sweep(&mut t, &base, run);
         run += 1; counter_sweep(&mut t, &base, run);
+        run = merge_grid(&mut t, &base, run);
         run += 1; ports_sweep(&mut t, &base, run);
         run = abnormal_sweep(&mut t, &base, run, enabled("VERIF_ENABLE_DIRTYFILE"));
         run = args_sweep(&mut t, &base, run);
